@@ -21,7 +21,7 @@ HARNESS_SRC = os.path.join(ROOT, "harness")
 BUILD = os.path.join(ROOT, ".build")
 CACHE = os.path.join(ROOT, ".cache")
 SCRATCH = os.path.join(ROOT, ".scratch")
-EVIDENCE = os.path.join(ROOT, "evidence")
+EVIDENCE = os.environ.get("VERIF_EVIDENCE_DIR") or os.path.join(ROOT, "evidence")
 REPLAYS = os.path.join(ROOT, "replays")
 KNOWN = os.path.join(ROOT, "known_findings.json")
 TLA_JAR = "/opt/veriftools/tla/tla2tools.jar"
